@@ -61,10 +61,19 @@ def run(tier):
         # (F_CFI: without the functions of the known finding C05 shroud:Error_with_template -- Shroud stops on them)
         wl = libgen.without_cfi_conflict(libgen.wide_library(F_CFI=True))
         configs.append(("wide-cfi", {"F_CFI": True}, [], libgen.cases_of(wl, set(K.FROWS), set(K.FRESULTS)), True))
+        # the library declared as C (language: c): the rows a C library can have; same driver, same contract
+        sets = libgen.cfg_sets()
+        crows, cres = sets["CRows"] & set(K.FROWS), sets["CResults"] & set(K.FRESULTS)
+        cwide = libgen.cases_of(libgen.wide_library(), crows, cres)
+        configs.append(("wide-c", {}, [], cwide, "c"))
+        configs.append(("wide-c-cfi", {"F_CFI": True}, [],
+                        libgen.cases_of(libgen.without_cfi_conflict(libgen.wide_library(F_CFI=True)), crows, cres), "c"))
         traces, labels = [], []
         with common.scratch("c01-") as base:
             def one(cfg):
                 name, opts, argv, cs, wc = cfg
+                if wc == "c":
+                    return name, fgen.build_and_run_f(os.path.join(base, name), cs, False, 6 if thorough else 4, opts, argv, language="c")
                 return name, fgen.build_and_run_f(os.path.join(base, name), cs, wc,
                                                   6 if thorough else 4, opts, argv)
             with cf.ThreadPoolExecutor(max(4, common.NCPU // 2)) as ex:
